@@ -594,6 +594,7 @@ func crashRun(args []string) error {
 		Crash  string      `json:"crash"`
 		KillAt int         `json:"kill_at_ms"`
 		CkptMs int         `json:"ckpt_ms"`
+		Early  bool        `json:"early"`
 		HitLog bool        `json:"hitlog"`
 	}
 	var jobs []job
@@ -635,7 +636,7 @@ func crashRun(args []string) error {
 				return
 			}
 			defer os.RemoveAll(dir)
-			r := &l2.Run{Bin: *bin, Dir: dir, Name: j.Name, Ops: j.Ops, Crash: j.Crash, KillAt: time.Duration(j.KillAt) * time.Millisecond, HitLog: j.HitLog, CkptMs: j.CkptMs}
+			r := &l2.Run{Bin: *bin, Dir: dir, Name: j.Name, Ops: j.Ops, Crash: j.Crash, KillAt: time.Duration(j.KillAt) * time.Millisecond, HitLog: j.HitLog, CkptMs: j.CkptMs, Early: j.Early}
 			ev, err := r.Execute()
 			results[i] = result{events: ev, err: err}
 			if j.HitLog {
